@@ -10,11 +10,23 @@ from ..trace import validate, TraceStats
 from .. import enc, gen, inventory
 
 PROP = 'C13'
-HOWS = ('ctor', 'parse', 'ops')
+HOWS = ('ctor', 'parse', 'ops', 'shared')
 
 
-def build(v, how):
+def build(v, how, memo=None):
     from depccg.cat import Category, Functor
+    if how == 'shared':
+        # equal sub-values are one object (as `y | y`, `x.functor(a, a)` or a rule that returns part of its input give):
+        # a value is what it is made of, not how its parts are held
+        memo = {} if memo is None else memo
+        key = json.dumps(v, sort_keys=True)
+        if key not in memo:
+            if v['k'] == 'A':
+                memo[key] = enc.dec_cat(v)
+            else:
+                l, r = build(v['l'], 'shared', memo), build(v['r'], 'shared', memo)
+                memo[key] = l / r if v['s'] == '/' else (l | r if v['s'] == '\\' else Functor(l, v['s'], r))
+        return memo[key]
     if how == 'ctor':
         return enc.dec_cat(v)
     if how == 'parse':
@@ -122,7 +134,7 @@ def run(tier):
     from depccg.cat import Category
     for i in range(n_rand):
         system = 'en' if i % 2 else 'ja'
-        va = gen.rand_cat(rng, rng.choice([1, 2, 3]), system)
+        va = gen.rand_cat(rng, rng.choice([1, 2, 3]), system, feats=gen.EN_FEATS_WIDE)
         if i % 3 == 0:
             vb = va
         elif i % 3 == 1:
